@@ -270,10 +270,14 @@ func (w *World) RunBlock(b *Block) bool {
 	if b.DtRule == 1 {
 		if st := w.streamRef(b.DtRef); st != nil && st.ZeroMs.IsInt64() {
 			d := st.ZeroMs.Int64() - w.NowMs() + (b.DtMs%3-1)*1000
-			if d > 0 && d < 400*365*86400*1000 {
+			if d > 0 {
 				dt = d
 			}
 		}
+	}
+	// a time.Duration holds ~292 years; block gaps are capped well below that (block time is monotone)
+	if maxDt := int64(200 * 365 * 86400 * 1000); dt > maxDt {
+		dt = maxDt
 	}
 	now := w.C.Now.Add(time.Duration(dt) * time.Millisecond)
 	for _, h := range w.hooks {
